@@ -374,7 +374,7 @@ def tie(ctx):
         firstv.setdefault(v["signature"], v)
     violations = list(firstv.values())
     return {"families": fam, "violations": violations[:8], "evaluations": len(metas), "distinct_nontrivial": len(distinct),
-            "rule": "toy + shipped databases (quick: 7, thorough: all) x 2 builds + generated databases with duplicate variant sets under naturally/lexicographically different names, prefix collisions, labels, fusions with and without own core variants, custom deletions, alignment indels; distinct by (database, build)",
+            "rule": "toy + shipped databases (quick: 7, thorough: all) x 2 builds + generated databases with duplicate variant sets under naturally/lexicographically different names, prefix collisions (incl. three and more groups competing for one prefix and label), labels, variants in the pseudogene part of the record, fusions with and without own core variants, custom deletions, alignment indels; distinct by (database, build)",
             "samples": samples, "stats": dict(stats)}
 
 
